@@ -41,7 +41,8 @@ CHECKS = {
                      "twin jumps to the saved position of the reference system built from base runs; every explored "
                      "continuation is then compared observation by observation, and the save document written after the "
                      "load must equal the loaded one. Bounded by generated and corpus programs, save points, continuations. Additionally the executable model spec/InkHost.tla (save = copy of the model state into a slot, load = putting it back) answers random host histories with saves and loads mid-turn from the syntax tree alone; TLC (InkHostOps) compares every call of the real engine with it, including the structure of the save document.",
-                note="base runs of the same build; observation projection of the harness; twin built from the same document",
+                note="base runs of the same build; observation projection of the harness; twin built from the same document; the host-model "
+                     "profiles save and saveflows (saves taken with flows waiting in the background, the flows looked at after the load)",
                 technique="TLA+ trace validation (InkHostTrace/InkHostAbs) of save/load histories + TLA+ executable host model (InkHost/InkHostOps) as absolute oracle"),
     "C16": dict(level=MC, ref="5/C16",
                 text="TLC validates recorded runs against InkHostAbs rule EvalA: a host evaluation of a pure function does "
@@ -136,14 +137,17 @@ CHECKS = {
                      "error in both. (2) TLC validates random host-call histories on fault-prone generated programs and corpus "
                      "mutants: no call ends in a panic or abort, and after reset_state a complete base path plays as in the base "
                      "run (InkHostAbs rule ResetA).",
-                note="Int32 laws are model-checked separately (Int32MC); histories are random, not exhaustive",
+                note="Int32 laws are model-checked separately (Int32MC); histories are random, not exhaustive; a third family runs every binary "
+                     "operator over every pair of operand kinds (values of each type, a void function result, a divert target, lists) in both builds",
                 technique="TLC-enumerated expressions replayed on both build profiles + TLA+ trace validation of fault histories"),
     "C07": dict(level=MC, ref="5/C07",
                 text="The native operators of Ink are transcribed into the TLA+ module InkValue (coercion ladder, wrap-around "
                      "ints, dyadic floats, strings as code points, list algebra over sets with origin tracking, admissible sets "
                      "for ties). TLC enumerates every unary and binary operator over every pair of leaves of the pools and a "
                      "slice of depth-2 trees; each tree is compiled and played, stored value and printed text are compared.",
-                note="floats only where exactly representable; float remainder, POW beyond small integers, random functions: no claim",
+                note="floats only where exactly representable; float remainder, POW beyond small integers, random functions: no claim; operator "
+                     "precedence: unary operators under / over binary ones, and every tree also written without the parentheses that precedence "
+                     "makes redundant (only operator pairs on which Ink's own table and the usual one agree)",
                 technique="TLC enumeration of expression trees over spec InkValue, replayed through compiler + runtime"),
     "C15": dict(level=FE, ref="5/C15",
                 text="A seeded mutation driver produces structural (delete / retype / duplicate / swap / renamed key / numeric "
@@ -179,7 +183,8 @@ CHECKS = {
                      "with the specified sequence (JSON mode, with and without -k) and emits the expected sequence for plain mode, "
                      "which is rendered and compared with stdout byte for byte. Compile mode: -o output equals the library's, "
                      "failing compiles exit non-zero with the library's message, file name and line.",
-                note="the tool's story seed cannot be set: programs use no randomness; stderr of plain mode is not compared",
+                note="the tool's story seed cannot be set: programs use no randomness; stderr of plain mode is not compared; knot names with "
+                     "capitals, every program's first session starts with a divert to an existing knot",
                 technique="TLA+ protocol specification (InkCli) + trace validation of the real binary's sessions (InkCliTrace)"),
 }
 
